@@ -165,7 +165,16 @@ fn sequential(rng: &mut Rng, ctx: &mut Ctx) {
                             ctx.violation("watch-wrong-code", format!("{:?}", e.code()));
                         }
                     }
-                    (Out::Done(Ok(_)), None) => ctx.violation("watch-found-unregistered", format!("watch({:?}) succeeded for an unregistered service", SERVICES[s])),
+                    (Out::Done(Ok(resp)), None) => {
+                        // the NOT_FOUND may also arrive as the stream's first (and only) item
+                        let mut st = resp.into_inner();
+                        let mut ex2 = Exec::new();
+                        match ex2.block_on(100_000, st.message()) {
+                            Out::Done(Err(e)) if e.code() == tonic::Code::NotFound => ctx.count("seq.watch_not_found"),
+                            Out::Done(Err(e)) => ctx.violation("watch-wrong-code", format!("{:?}", e.code())),
+                            _ => ctx.violation("watch-found-unregistered", format!("watch({:?}) succeeded for an unregistered service", SERVICES[s])),
+                        }
+                    }
                     (Out::Done(Err(e)), Some(_)) => ctx.violation("watch-failed", format!("watch({:?}) failed: {:?}", SERVICES[s], e.code())),
                     _ => {
                         ctx.violation("watch-hang", "watch did not complete".into());
